@@ -21,6 +21,15 @@ BUILT = {
  'C06': dict(technique='bounded exhaustive trace enumeration (E1 token sequences x all placements of <= d non-default separators x included-file variants) against the reference scanner/parser; every trace replayed on the real library and its diagnostics compared',
              text='every E1 token sequence (11 schemas incl. free-form and single sections, undeclared names, multi-line string tokens) with every placement of up to 2 non-default separators (newlines, # // /* */ comments, two-line comment) and the same texts inside / after included files of depth 1-2: rc 1 implies a diagnostic whose context names the expected file and the line on which the offending token ends; an accepted parse emits none.',
              note='trusted: reflex/RefParser line bookkeeping; for errors that concern a whole item any line of the item is accepted; callbacks that fail silently are out of scope', ref='5/C06'),
+ 'C07': dict(technique='bounded exhaustive enumeration of abort points (E1 viable-prefix DFS = every cut / corruption position, E2 product, included-file placements) and breadth-first search over API call sequences, with a resource-balance invariant evaluated after cfg_free in every explored execution',
+             text='every token-level cut or corruption point of every E1 text over schemas with pointer values + release callback, function arguments, annotations, search path, and inside included files; plus a BFS over ~70 API calls (search path set, annotations, pointer options). After cfg_free: zero live library blocks (leak site reported), zero open FILEs, descriptor count restored, every pointer value released exactly once, no foreign or double release, ASan silent.',
+             note='trusted: the allocation registry behind the shim (counts every malloc/strdup/fopen of the library), ASan for use-after-free / double free; LeakSanitizer is not used', ref='5/C07'),
+ 'C09': dict(technique='explicit-state breadth-first search over the real transition function (one real API call per transition, state = history replayed on a fresh context, dedup on the canonical dump) compared with an abstract store model on every transition',
+             text='BFS to depth 3 (5 thorough) over 65 API calls (scalar/indexed setters, list set/append, bulk set good/bad, titled-section add, section remove by index/title/path, nested targets, wrong type, illegal index, unknown name, annotation, set-from-text) from four start states; return value, sizes, values, titles and MODIFIED are compared with the reference store after every call.',
+             note='trusted: mc/refstore.py; dedup on the full dump is sound because a context\'s future depends only on values, flags and annotations; lists capped at 4 values, sections at 3 instances', ref='5/C09'),
+ 'C10': dict(technique='bounded exhaustive enumeration of (option state reached by <= 3 builder operations) x (refusing call) x (position of the offending element) on the real library with a before/after snapshot invariant',
+             text='for 10 options (scalar, list, no-default, section) every state built by up to 3 (4 thorough) API calls / parses x every refusing call (bulk set with the bad element at each position, veto by the pre-set callback incl. list indices, wrong type, illegal index, existing / missing section, unconvertible or out-of-range text): the call fails and the raw snapshot (count, values, order, annotation, RESET, MODIFIED) is identical.',
+             note='trusted: the driver\'s raw snapshot of the public cfg_opt_t fields', ref='5/C10'),
 }
 
 checks = []
